@@ -33,12 +33,24 @@ def reader_closure(repo: Repo) -> List[str]:
     return seen
 
 
+def _reader_init(repo: Repo) -> ast.FunctionDef:
+    """Reader.__init__ with its private loading helpers expanded in place (the steps may live in a `_load..` helper)"""
+    return expand_private_calls(repo, R, repo.func(R, 'Reader.__init__'), 'Reader', depth=1,
+                                keep=['_init_header_fields', '_validate_header', '_init_segments', '_read_decompressed_data', '_init_memory'])      # type: ignore[return-value]
+
+
+def _validate_header_fn(repo: Repo) -> ast.FunctionDef:
+    """_validate_header with an extracted `first problem or None` helper read in place"""
+    from ..pyfacts import inline_optional_classifiers
+    return inline_optional_classifiers(repo, R, repo.func(R, 'Reader._validate_header'), 'Reader')       # type: ignore[return-value]
+
+
 def rule_escape(rep: Report, repo: Repo) -> None:
     rep.rule('C10.ESCAPE', 'exception-escape analysis of Reader.__init__ and its call closure: every implicitly raising '
              'construct fed by file bytes is converted to the read exception by an enclosing handler, or excluded by a '
              'dominating validation; every explicit raise is the read exception', 18)
     sub = make_hierarchy(repo)
-    init = repo.func(R, 'Reader.__init__')
+    init = _reader_init(repo)
     # the root handler: what does Reader.__init__ convert?
     root_try = [n for n in walk_no_nested(init) if isinstance(n, ast.Try)]
     root_catches: Set[str] = set()
@@ -78,7 +90,7 @@ def rule_escape(rep: Report, repo: Repo) -> None:
                 if isinstance(s.node.value, ast.Dict):                   # type: ignore[attr-defined]
                     keys = {k.value for k in s.node.value.keys if isinstance(k, ast.Constant)}   # type: ignore[attr-defined]
                     sup = set(repo.const('flipjump/fjm/fjm_consts.py', 'SUPPORTED_MEMORY_WIDTHS'))
-                    vh = [norm(t) for t, r, _ in raise_guards(repo.func(R, 'Reader._validate_header'))]
+                    vh = [norm(t) for t, r, _ in raise_guards(_validate_header_fn(repo))]
                     if keys >= sup and 'self.memory_width not in SUPPORTED_MEMORY_WIDTHS' in vh and f'self.{q.split(".")[1]}' in validated_before:
                         proof = 'GUARD: key validated by _validate_header (called earlier); table covers the supported widths'
                 elif base == 'data':
@@ -171,11 +183,10 @@ def rule_bounded(rep: Report, repo: Repo) -> None:
 def rule_validate_first(rep: Report, repo: Repo) -> None:
     rep.rule('C10.VALIDATE-FIRST', 'header validation precedes segment/data/memory construction; per segment the parity and '
              'pool checks precede the first store into the memory dictionary; run() asserts runnability before dispatch', 3)
-    init = repo.func(R, 'Reader.__init__')
-    order = [dotted(c.func) for c in ast.walk(init) if isinstance(c, ast.Call) and dotted(c.func).startswith('self._')]
+    from ..pyfacts import calls_in_order
+    init = _reader_init(repo)
     want = ['self._init_header_fields', 'self._validate_header', 'self._init_segments', 'self._read_decompressed_data', 'self._init_memory']
-    # ast.walk is breadth first; sort by line
-    order = [d for _, d in sorted((c.lineno, dotted(c.func)) for c in ast.walk(init) if isinstance(c, ast.Call) and dotted(c.func).startswith('self._'))]
+    order = [dotted(c.func) for c in calls_in_order(init) if dotted(c.func).startswith('self._')]       # tree order, not line numbers
     rep.check(order == want, 'C10.VALIDATE-FIRST', 'Reader.__init__:order', str(order), f'{R}:{init.lineno}', expected=str(want))
     im = normalize_counting_whiles(expand_private_calls(repo, R, repo.func(R, 'Reader._init_memory'), 'Reader'))
     loop = [n for n in ast.walk(im) if isinstance(n, ast.For) and norm(n.iter) == 'segments'][0]
